@@ -76,6 +76,8 @@ VARIANTS = {
             "-DSVT_AV1_VERIF -g1 -fsanitize=address,undefined -fsanitize-recover=undefined "
             "-fno-omit-frame-pointer -fno-sanitize=alignment,shift-base,shift-exponent",
             "-fsanitize=address,undefined"),
+    # ThreadSanitizer: used by C17 to enumerate process-global state that instances of one process touch without synchronisation
+    "tsan": ("Release", "-DSVT_AV1_VERIF -g1 -fsanitize=thread -fno-omit-frame-pointer", "-fsanitize=thread"),
     "nohooks": ("Release", "-g1", ""),
 }
 
